@@ -361,6 +361,10 @@ func c02Run(c *mc.Ctx) {
 				jobs = append(jobs, job{l, pat})
 			}
 		}
+		// and EVERY length between the sequential sweep (0..520, thorough 2100) and 2^10
+		for l := 521; l <= 1022; l++ {
+			jobs = append(jobs, job{l, 1}, job{l, 3})
+		}
 		if mbits.UintSize == 64 {
 			// the top of the int32 position range: 2^25-1 and 2^25 words (64-bit builds)
 			jobs = append([]job{{1<<25 - 1, 10}, {1 << 25, 10}, {1 << 25, 9}}, jobs...) // first: they take longest
